@@ -1,6 +1,7 @@
 /-
   XotModel.Lemmas.C02Spellings — closed data for the non-vacuity examples and the rejection examples
-  of Props/C02.lean (imported by nothing else): spellings (`SNode` / `NSNode`) with the byte positions
+  of Props/C02.lean (imported by nothing else), and `wellNsDoc_wrap` (the wrapper element of
+  `C02_fragment_spelled_ns` keeps a spelling well formed): spellings (`SNode` / `NSNode`) with the byte positions
   a tokenizer would report, and two processing-instruction tokens with the reserved target.
 
     spelledExample      <a k="x&amp;"><!--c-->t<![CDATA[ CR LF ]]><b/></a>
@@ -108,3 +109,19 @@ def piXmlMixed : List Token :=
   [.pi ⟨['X', 'm', 'L'], 2⟩ none ⟨['<', '?', 'X', 'm', 'L', '?', '>'], 0⟩]
 
 end XotModel.Witness
+
+namespace XotModel
+
+/-- Wrapping a well-formed spelling in one unprefixed element without attributes `<w>…</w>` gives a
+    well-formed spelling. -/
+theorem wellNsDoc_wrap {sns : List NSNode} (hw : WellNsDoc sns) (w : StrSpan) (pstart : Nat) (junk openSp : StrSpan)
+    (cw : StrSpan) (cpstart : Nat) (closeSp : StrSpan) (hcw : cw.text = w.text) :
+    WellNsDoc [NSNode.elem ⟨[], pstart⟩ w junk [] openSp sns ⟨[], cpstart⟩ cw closeSp] := by
+  refine ⟨⟨⟨⟨fun a ha => by simp at ha, fun d hd => by simp [declsOf] at hd, List.nodup_nil, List.nodup_nil,
+      fun a ha => by simp [ordinary] at ha⟩,
+    rfl, rfl, hcw, hw.2.1, hw.1⟩, trivial⟩, rfl, ?_⟩
+  have := hw.2.2
+  simpa [NSNode.denote.denoteList, NSNode.denote, NPNode.ids.idsList, NPNode.ids, attrIds, attrsOf, ordinary,
+    declsOf, Scope.push] using this
+
+end XotModel
